@@ -6,6 +6,7 @@ import (
 	"fmt"
 	"os"
 	"runtime/debug"
+	"runtime/pprof"
 
 	"verifharness/checks"
 	"verifharness/mc"
@@ -44,7 +45,13 @@ func main() {
 			fmt.Fprintln(os.Stderr, "unknown check", id)
 			os.Exit(2)
 		}
+		debug.SetGCPercent(400)
 		r := mc.NewRun(id, tier)
+		if pf := os.Getenv("VERIF_PPROF"); pf != "" {
+			f, _ := os.Create(pf)
+			_ = pprof.StartCPUProfile(f)
+			defer pprof.StopCPUProfile()
+		}
 		func() {
 			defer func() {
 				if p := recover(); p != nil {
@@ -55,7 +62,9 @@ func main() {
 			}()
 			c.Run(r)
 		}()
-		os.Exit(r.Finish())
+		code := r.Finish()
+		pprof.StopCPUProfile()
+		os.Exit(code)
 	case "replay":
 		if len(os.Args) < 3 {
 			usage()
